@@ -665,3 +665,315 @@ def index(repo, out):
                 continue
             out.ok(P.fn, st, f'{astx.src(tgt)} = {P.V}[{astx.src(off_e)}][design[{astx.src(off_e)}]]; offset `{acc}` '
                    'advances by the variable size and is reset for every case')
+
+
+# --------------------------------------------------------------------------- level list for the design
+@rule('C23.levels', floor=4)
+def levels(repo, out):
+    """The level list given to fullfact/gsd repeats each variable's own level count `size` times, in variable order."""
+    for P in pydoes(repo):
+        C = P.C
+        # which level function does the table use?
+        num = astx.arg(P.lin, 2, 'num')
+        tab_at = C.at(P.tab)
+        lin_at = tab_at if P.lin is P.tab.value else next(iter(C.rd.defs(tab_at, P.tab.value.id)))
+        e = num
+        if isinstance(e, ast.Name):
+            e = C.rd.value(lin_at, e.id)
+        tab_func = astx.callee_attr(e) if isinstance(e, ast.Call) else None
+        if tab_func not in LEVEL_FUNCS:
+            out.unsure(P.fn, P.tab, 'level function of the table not recognised (see C23.table)')
+            continue
+        fa = repo.func(P.rel, f'{P.cls}._get_all_levels')
+        CA = ctx_of(fa)
+        rets = [st for st in astx.walk_stmts(fa.node.body) if isinstance(st, ast.Return) and st.value is not None]
+        if not rets:
+            raise AnalysisError(f'{fa.ident}: no return')
+        for rt in rets:
+            at = CA.at(rt)
+            v = rt.value
+            if isinstance(v, ast.Name):
+                v = CA.rd.value(at, v.id) or v
+
+            def sizes_path(x, at_):
+                p = astx.path(x)
+                if p == 'self._sizes':
+                    return True
+                if isinstance(x, ast.Name):
+                    vv = CA.rd.value(at_, x.id)
+                    return vv is not None and astx.path(vv) == 'self._sizes'
+                return False
+            # int form: [self._levels] * sum(<sizes>.values())
+            if isinstance(v, ast.BinOp) and isinstance(v.op, ast.Mult):
+                lst, cnt = (v.left, v.right) if isinstance(v.left, ast.List) else (v.right, v.left)
+                if isinstance(lst, ast.List) and len(lst.elts) == 1:
+                    lv = lst.elts[0]
+                    lv_ok = astx.path(lv) == 'self._levels' or \
+                        (isinstance(lv, ast.Name) and astx.path(CA.rd.value(at, lv.id) or lv) == 'self._levels')
+                    cnt_ok = isinstance(cnt, ast.Call) and astx.call_name(cnt) == 'sum' and len(cnt.args) == 1 and \
+                        isinstance(cnt.args[0], ast.Call) and astx.callee_attr(cnt.args[0]) == 'values' and \
+                        sizes_path(astx.receiver(cnt.args[0]), at)
+                    if isinstance(cnt, ast.Name) and not cnt_ok:
+                        out.unsure(fa, rt, f'factor count `{astx.src(cnt)}` not recognised')
+                        continue
+                    if not lv_ok:
+                        if isinstance(lv, ast.Constant) or astx.path(lv) in ('_LEVELS',):
+                            out.bad(fa, rt, f'the uniform level list uses `{astx.src(lv)}` instead of self._levels: the '
+                                    'design enumerates other levels than the table holds', key='levels-uniform')
+                        else:
+                            out.unsure(fa, rt, f'level entry `{astx.src(lv)}` not recognised')
+                        continue
+                    if not cnt_ok:
+                        if isinstance(cnt, ast.Call) and astx.call_name(cnt) == 'len':
+                            out.bad(fa, rt, f'the level list has `{astx.src(cnt)}` entries (one per variable) instead of '
+                                    'one per element: array variables get fewer factors than elements',
+                                    key='levels-count')
+                        else:
+                            out.unsure(fa, rt, f'factor count `{astx.src(cnt)}` not recognised')
+                        continue
+                    out.ok(fa, rt, 'uniform levels: self._levels repeated once per element of every variable')
+                    continue
+            # dict form: sum([v * [f(k)] for k, v in sizes.items()], [])
+            comp = None
+            if isinstance(v, ast.Call) and astx.call_name(v) == 'sum' and len(v.args) == 2 and \
+                    isinstance(v.args[1], ast.List) and not v.args[1].elts and \
+                    isinstance(v.args[0], (ast.ListComp, ast.GeneratorExp)):
+                comp = v.args[0]
+            if comp is None:
+                out.unsure(fa, rt, f'level list expression not recognised: {astx.src(v)}')
+                continue
+            if len(comp.generators) != 1 or comp.generators[0].ifs:
+                if comp.generators and comp.generators[0].ifs:
+                    out.bad(fa, rt, 'the level list skips variables by a filter: the design has fewer factors than '
+                            'the table has rows', key='levels-count')
+                else:
+                    out.unsure(fa, rt, 'comprehension shape not recognised')
+                continue
+            gen = comp.generators[0]
+            if not (isinstance(gen.target, ast.Tuple) and len(gen.target.elts) == 2 and
+                    all(isinstance(x, ast.Name) for x in gen.target.elts) and isinstance(gen.iter, ast.Call) and
+                    astx.callee_attr(gen.iter) == 'items' and sizes_path(astx.receiver(gen.iter), at)):
+                out.unsure(fa, rt, f'level list does not iterate self._sizes.items(): {astx.src(gen.iter)}')
+                continue
+            kn, vn = gen.target.elts[0].id, gen.target.elts[1].id
+            elt = comp.elt
+            if not (isinstance(elt, ast.BinOp) and isinstance(elt.op, ast.Mult)):
+                if isinstance(elt, ast.List) and len(elt.elts) == 1:
+                    out.bad(fa, rt, f'each variable contributes one factor (`{astx.src(elt)}`) instead of one per '
+                            'element: array variables get fewer design columns than elements', key='levels-count')
+                else:
+                    out.unsure(fa, rt, f'element `{astx.src(elt)}` not recognised')
+                continue
+            lst, cnt = (elt.left, elt.right) if isinstance(elt.left, ast.List) else (elt.right, elt.left)
+            if not (isinstance(lst, ast.List) and len(lst.elts) == 1):
+                out.unsure(fa, rt, f'element `{astx.src(elt)}` not recognised')
+                continue
+            if not (isinstance(cnt, ast.Name) and cnt.id == vn):
+                if isinstance(cnt, ast.Constant) or (isinstance(cnt, ast.Name) and cnt.id == kn):
+                    out.bad(fa, rt, f'the level of a variable is repeated `{astx.src(cnt)}` times instead of its size '
+                            f'`{vn}`', key='levels-count')
+                else:
+                    out.unsure(fa, rt, f'repeat count `{astx.src(cnt)}` not recognised')
+                continue
+            lv = lst.elts[0]
+            if isinstance(lv, ast.Call) and astx.path(astx.receiver(lv)) == 'self' and \
+                    astx.callee_attr(lv) in LEVEL_FUNCS and len(lv.args) == 1 and isinstance(lv.args[0], ast.Name):
+                if lv.args[0].id != kn:
+                    out.bad(fa, rt, f'the level count is looked up for `{lv.args[0].id}` instead of the variable name '
+                            f'`{kn}`', key='levels-per-dv')
+                elif astx.callee_attr(lv) != tab_func:
+                    out.bad(fa, rt, f'design uses {astx.callee_attr(lv)} but the table uses {tab_func}',
+                            key='levels-per-dv')
+                else:
+                    out.ok(fa, rt, f'per-variable levels: self.{tab_func}({kn}) repeated {vn} (= size) times, the same '
+                           'function the level table uses')
+                continue
+            if isinstance(lv, ast.Call) and astx.callee_attr(lv) == 'get' or isinstance(lv, (ast.Subscript, ast.Constant)) \
+                    or astx.path(lv) in ('self._levels', '_LEVELS'):
+                out.bad(fa, rt, f'the design takes the level count of a variable from `{astx.src(lv)}` while the level '
+                        f'table takes it from self.{tab_func}(name): when the two differ (e.g. a "default" entry) the '
+                        'design does not enumerate the requested levels / selects NaN table entries',
+                        key='levels-per-dv')
+                continue
+            out.unsure(fa, rt, f'level entry `{astx.src(lv)}` not recognised')
+        # the per-variable level function itself: int -> the int; dict -> get(name, get('default', _LEVELS))
+        # (opaque here: both sites call the same function, which is what the property needs)
+
+
+# --------------------------------------------------------------------------- design codings (PB / BB)
+class _NoEval(Exception):
+    pass
+
+
+def _vec(x, n):
+    return x if isinstance(x, list) else [x] * n
+
+
+def _ev(e, env, n):
+    """Elementwise evaluation of a small numpy expression on a list of n sample values."""
+    if isinstance(e, ast.Constant) and isinstance(e.value, (int, float)) and not isinstance(e.value, bool):
+        return e.value
+    if isinstance(e, ast.Constant) and e.value is None:
+        return None
+    if isinstance(e, ast.Name):
+        if e.id in env:
+            return env[e.id]
+        raise _NoEval(astx.src(e))
+    if isinstance(e, ast.UnaryOp) and isinstance(e.op, (ast.USub, ast.Invert, ast.Not)):
+        v = _vec(_ev(e.operand, env, n), n)
+        if isinstance(e.op, ast.USub):
+            return [-x for x in v]
+        return [not x for x in v]
+    if isinstance(e, ast.BinOp):
+        a, b = _vec(_ev(e.left, env, n), n), _vec(_ev(e.right, env, n), n)
+        ops = {ast.Add: lambda x, y: x + y, ast.Sub: lambda x, y: x - y, ast.Mult: lambda x, y: x * y,
+               ast.FloorDiv: lambda x, y: x // y, ast.Div: lambda x, y: Fraction(x) / Fraction(y),
+               ast.Mod: lambda x, y: x % y, ast.BitAnd: lambda x, y: x and y, ast.BitOr: lambda x, y: x or y}
+        f = ops.get(type(e.op))
+        if f is None:
+            raise _NoEval(astx.src(e))
+        try:
+            return [f(x, y) for x, y in zip(a, b)]
+        except ZeroDivisionError:
+            raise _NoEval(astx.src(e))
+    if isinstance(e, ast.Compare) and len(e.ops) == 1:
+        a, b = _vec(_ev(e.left, env, n), n), _vec(_ev(e.comparators[0], env, n), n)
+        ops = {ast.Lt: lambda x, y: x < y, ast.LtE: lambda x, y: x <= y, ast.Gt: lambda x, y: x > y,
+               ast.GtE: lambda x, y: x >= y, ast.Eq: lambda x, y: x == y, ast.NotEq: lambda x, y: x != y}
+        f = ops.get(type(e.ops[0]))
+        if f is None:
+            raise _NoEval(astx.src(e))
+        return [f(x, y) for x, y in zip(a, b)]
+    if isinstance(e, ast.Call):
+        if np_call(e, 'maximum', 'minimum') and len(e.args) == 2:
+            a, b = _vec(_ev(e.args[0], env, n), n), _vec(_ev(e.args[1], env, n), n)
+            f = max if astx.callee_attr(e) == 'maximum' else min
+            return [f(x, y) for x, y in zip(a, b)]
+        if np_call(e, 'where') and len(e.args) == 3:
+            c, a, b = (_vec(_ev(x, env, n), n) for x in e.args)
+            return [x if t else y for t, x, y in zip(c, a, b)]
+        if np_call(e, 'clip') and len(e.args) == 3:
+            a = _vec(_ev(e.args[0], env, n), n)
+            lo, hi = _ev(e.args[1], env, n), _ev(e.args[2], env, n)
+            if isinstance(lo, list) or isinstance(hi, list):
+                raise _NoEval(astx.src(e))
+            return [x if (lo is None or x >= lo) and (hi is None or x <= hi) else (lo if lo is not None and x < lo else hi)
+                    for x in a]
+        if (np_call(e, 'abs', 'absolute') or astx.call_name(e) == 'abs') and len(e.args) == 1:
+            return [abs(x) for x in _vec(_ev(e.args[0], env, n), n)]
+        if isinstance(e.func, ast.Attribute) and e.func.attr in ('astype', 'copy'):
+            v = _vec(_ev(e.func.value, env, n), n)
+            if e.func.attr == 'astype':
+                a0 = e.args[0] if e.args else None
+                nm = astx.const_str(a0) or astx.path(a0) or ''
+                if 'int' in nm:
+                    return [int(x) for x in v]
+                raise _NoEval(astx.src(e))
+            return list(v)
+    raise _NoEval(astx.src(e))
+
+
+CODED = [
+    # (file, class, pydoe attribute, code points)
+    (DG, 'PlackettBurmanGenerator', '_pbdesign', (-1, 1)),
+    (DG, 'BoxBehnkenGenerator', '_bbdesign', (-1, 0, 1)),
+    (SP, 'PlackettBurmanGenerator', '_pbdesign', (-1, 1)),
+    (SP, 'BoxBehnkenGenerator', '_bbdesign', (-1, 0, 1)),
+]
+
+
+def ctor_levels(repo, rel, cls):
+    f = repo.func(rel, f'{cls}.__init__')
+    for c in astx.calls(f.node):
+        if astx.callee_attr(c) == '__init__' and isinstance(c.func.value, ast.Call) and \
+                astx.call_name(c.func.value) == 'super':
+            lv = astx.kwarg(c, 'levels')
+            if lv is None:
+                return f, c, None
+            return f, c, lv
+    raise AnalysisError(f'{f.ident}: no super().__init__ call')
+
+
+@rule('C23.design', floor=4)
+def design(repo, out):
+    """Plackett-Burman / Box-Behnken code points are mapped monotonically and one-to-one onto level indices 0..levels-1."""
+    for rel, cls, attr, pts in CODED:
+        fn = repo.func(rel, f'{cls}._generate_design')
+        fi, call, lv = ctor_levels(repo, rel, cls)
+        if not (isinstance(lv, ast.Constant) and isinstance(lv.value, int)):
+            out.unsure(fi, call, 'levels passed to the base class is not an integer literal')
+            continue
+        nlev = lv.value
+        n = len(pts)
+        env = {}
+        result = None
+        try:
+            for st in astx.strip_doc(fn.node.body):
+                if isinstance(st, ast.If):
+                    # argument validation: `if size < 3: raise ...`
+                    if all(isinstance(s, ast.Raise) for s in st.body) and not st.orelse and \
+                            not (astx.names(st.test) & set(env)):
+                        continue
+                    raise _NoEval(astx.src(st))
+                if isinstance(st, ast.Assign) and len(st.targets) == 1:
+                    t, v = st.targets[0], st.value
+                    if isinstance(t, ast.Name):
+                        if isinstance(v, ast.Call) and astx.path(v.func) == f'self.{attr}':
+                            env[t.id] = list(pts)
+                        else:
+                            val = _ev(v, env, n)
+                            if isinstance(val, list):
+                                env[t.id] = val
+                            else:
+                                raise _NoEval(astx.src(st))
+                        continue
+                    if isinstance(t, ast.Subscript) and isinstance(t.value, ast.Name) and t.value.id in env:
+                        mask = _vec(_ev(t.slice, env, n), n)
+                        val = _vec(_ev(v, env, n), n)
+                        if not all(isinstance(m, bool) for m in mask):
+                            raise _NoEval(astx.src(st))
+                        env[t.value.id] = [x if m else o for m, x, o in zip(mask, val, env[t.value.id])]
+                        continue
+                    raise _NoEval(astx.src(st))
+                if isinstance(st, ast.AugAssign) and isinstance(st.target, ast.Name) and st.target.id in env:
+                    env[st.target.id] = _vec(_ev(ast.BinOp(left=st.target, op=st.op, right=st.value), env, n), n)
+                    continue
+                if isinstance(st, ast.Return) and st.value is not None:
+                    if isinstance(st.value, ast.Call) and astx.path(st.value.func) == f'self.{attr}':
+                        result = list(pts)
+                    else:
+                        result = _vec(_ev(st.value, env, n), n)
+                    break
+                raise _NoEval(astx.src(st))
+        except _NoEval as ex:
+            out.unsure(fn, fn.node, f'coding of the {attr[1:]} design not evaluable: {ex}')
+            continue
+        if result is None:
+            out.unsure(fn, fn.node, 'no return value found')
+            continue
+        # the caller converts with .astype('int')
+        img = []
+        okint = True
+        for x in result:
+            if isinstance(x, bool):
+                x = int(x)
+            if isinstance(x, Fraction):
+                if x.denominator != 1:
+                    okint = False
+                x = int(x)
+            img.append(x)
+        mp = ', '.join(f'{p:+d}->{i}' for p, i in zip(pts, img))
+        want = list(range(nlev))
+        if not okint or any(i < 0 or i >= nlev for i in img):
+            out.bad(fn, fn.node, f'design codes are mapped {mp} but the level table of this generator has the indices '
+                    f'0..{nlev - 1} (levels={nlev}): an index outside that range wraps around to / selects another '
+                    'level (or a NaN column), so distinct design codes share a level and the design is not covered',
+                    key='design-coding')
+        elif sorted(img) != want:
+            out.bad(fn, fn.node, f'design codes are mapped {mp}; with levels={nlev} the indices {want} must each be hit '
+                    'exactly once (some level is never used or two codes coincide)', key='design-coding')
+        elif img != want and img != want[::-1]:
+            out.bad(fn, fn.node, f'design codes are mapped {mp}: not monotone, the centre code does not select the '
+                    'middle level', key='design-coding')
+        else:
+            out.ok(fn, fn.node, f'{attr[1:]} codes {mp} cover the level indices 0..{nlev - 1} (levels={nlev})')
